@@ -236,6 +236,21 @@ def layout(ctx: Any) -> List[Ob]:
             obs.append(ob(R, c, f'class {c.name}', 'every record kind has its own write()', False))
             continue
         writers[c.name] = writer_tokens(ctx, w)
+    # who may touch the builder: a record's writer goes through the builder's field writers and nothing else -- the
+    # compression table, the running size and the byte-level primitives belong to the builder, and a writer that emits a
+    # name itself (or a pointer to one) by-passes the label-boundary and offset rules write_name keeps
+    for c in rec.all_subclasses():
+        w = c.methods.get('write')
+        if w is None or len(w.params) < 2:
+            continue
+        outp = w.params[1]
+        alias = {outp}
+        for st in walk_local_ordered(w.node):
+            if isinstance(st, ast.Assign) and isinstance(st.targets[0], ast.Name) and isinstance(st.value, ast.Name) and st.value.id in alias:
+                alias.add(st.targets[0].id)
+        touched = sorted({x.attr for x in ast.walk(w.node) if isinstance(x, ast.Attribute) and isinstance(x.value, ast.Name) and x.value.id in alias and x.attr not in WRITE_TOKENS})
+        passed = [norm(x) for x in ast.walk(w.node) if isinstance(x, ast.Call) and any(isinstance(a, ast.Name) and a.id in alias for a in list(x.args) + [k.value for k in x.keywords])]
+        obs.append(ob(R, w, f'{c.name}.write uses {outp}.{{{", ".join(touched)}}}' if touched else f'{c.name}.write', 'a record writer touches the message builder only through its field writers (names, offsets and raw bytes stay with the builder)', not touched and not passed, f'touched {touched}; builder handed on in {passed[:2]}'))
     rinc = prog.func(INC + '._read_record')
     want_types = set(RFC_RDATA)
     obs.append(ob(R, rinc, f'decoder arms for types {sorted(arms)}', f'the decoder dispatches exactly the supported types {sorted(want_types)}', set(arms) == want_types))
@@ -428,6 +443,70 @@ def layout(ctx: Any) -> List[Ob]:
     return obs
 
 
+def resume_position_obligations(ctx: Any, R: str) -> List[Ob]:
+    """Where the caller carries on after a name: behind its terminating zero, or behind the FIRST pointer of the name.  The
+    label decoder returns that position.  As long as it follows a pointer by calling itself (the result of the inner call
+    discarded) the position variable is only ever advanced and the returned position cannot move.  A decoder that follows
+    pointers by re-pointing its position variable inside the loop must keep the position to resume at in a variable that is
+    written at most once: each write inside the loop has to be guarded by a test of that variable, and the returns must not read
+    the re-pointed position except as the fall-back of such a variable.  (A resume position overwritten at the second pointer
+    makes the message reader re-read earlier bytes: the next entry is a duplicate and the tail is lost.)"""
+    prog = ctx.prog
+    f = prog.func(INC + '._decode_labels_at_offset')
+    pos = f.params[1]
+    loops_ = [lp for lp in walk_local_ordered(f.node) if isinstance(lp, (ast.While, ast.For))]
+    parents: Dict[int, ast.AST] = {}
+    for a in ast.walk(f.node):
+        for ch in ast.iter_child_nodes(a):
+            parents[id(ch)] = a
+
+    def ancestors(n: ast.AST) -> List[ast.AST]:
+        out_ = []
+        while id(n) in parents:
+            n = parents[id(n)]
+            out_.append(n)
+        return out_
+
+    def in_loop(n: ast.AST) -> bool:
+        return any(a in loops_ for a in ancestors(n))
+
+    jumps = [st for st in walk_local_ordered(f.node) if isinstance(st, ast.Assign) and any(isinstance(t, ast.Name) and t.id == pos for t in st.targets) and in_loop(st)]
+    rets = [r for r in walk_local_ordered(f.node) if isinstance(r, ast.Return) and r.value is not None]
+    obs: List[Ob] = []
+    if not jumps:
+        # recursion form: the inner call's result must not become the position returned
+        rec_calls = [c for c in walk_local_ordered(f.node) if isinstance(c, ast.Call) and call_name(c) == f.name]
+        used = [c for c in rec_calls if not isinstance(parents.get(id(c)), ast.Expr)]
+        obs.append(ob(R, f, rec_calls[0] if rec_calls else f.name, 'following a pointer does not move the position the caller resumes at (position variable only advanced; the inner call\'s result is discarded)', not used, f'{len(used)} inner call(s) whose result is used'))
+        return obs
+    bad: List[str] = []
+    read_names: Set[str] = set()
+    for r in rets:
+        for x in ast.walk(r.value):
+            if isinstance(x, ast.Name) and x.id != pos:
+                read_names.add(x.id)
+        # the re-pointed position may only be read as a fall-back: `v or pos + k` / `pos + k if not v else v`
+        reads_pos = any(isinstance(x, ast.Name) and x.id == pos for x in ast.walk(r.value))
+        fallback = isinstance(r.value, ast.BoolOp) and isinstance(r.value.op, ast.Or) and isinstance(r.value.values[0], ast.Name) or isinstance(r.value, ast.IfExp) and any(isinstance(x, ast.Name) and x.id != pos for x in ast.walk(r.value.test))
+        if reads_pos and not fallback and in_loop(r):
+            # a return reached only before any jump is fine when no jump precedes it in the loop body order and the loop is left by it
+            cfg = cfg_of(f.node)
+            rn = [n for n in cfg.nodes if n.ast is r]
+            jn = [n for n in cfg.nodes if any(n.ast is j for j in jumps)]
+            if any(cfg.path_avoiding(j, lambda n_, q=q: n_ is q, lambda n_: False) is not None for j in jn for q in rn):
+                bad.append(f'line {r.lineno}: `{norm(r.value)}` reads the re-pointed position')
+    for st in walk_local_ordered(f.node):
+        if isinstance(st, (ast.Assign, ast.AugAssign)) and in_loop(st):
+            tg = st.targets if isinstance(st, ast.Assign) else [st.target]
+            for t in tg:
+                if isinstance(t, ast.Name) and t.id in read_names:
+                    guards = [a for a in ancestors(st) if isinstance(a, ast.If) and any(isinstance(x, ast.Name) and x.id == t.id for x in ast.walk(a.test))]
+                    if not guards:
+                        bad.append(f'line {st.lineno}: `{norm(st)}` rewrites the resume position on every pointer')
+    obs.append(ob(R, f, jumps[0], 'the position the caller resumes at is fixed at the first pointer of a name (written once, never the re-pointed position)', not bad, '; '.join(bad[:3])))
+    return obs
+
+
 @rule('C01.PRIMS', 'D', expect_min=6)
 def prims(ctx: Any) -> List[Ob]:
     """The read / write primitives consume and produce exactly what they say: a raw
@@ -543,6 +622,7 @@ def prims(ctx: Any) -> List[Ob]:
     rn = inc.methods['_read_name']
     joined = [st for st in walk_local_ordered(rn.node) if isinstance(st, ast.Assign) and isinstance(st.value, ast.BinOp) and isinstance(st.value.op, ast.Add) and isinstance(st.value.left, ast.Call) and call_name(st.value.left) == 'join' and norm(st.value.left.func.value) == "'.'" and norm(st.value.right) == "'.'"]
     obs.append(ob(R, rn, "name = '.'.join(labels) + '.'", 'a decoded name is its labels joined by dots plus the root dot', len(joined) == 1))
+    obs.extend(resume_position_obligations(ctx, R))
     return obs
 
 
